@@ -2,12 +2,14 @@
    Proved here (node model): each inadmissible class named by the property, as a theorem for EVERY node state meeting the
    class condition, every continuation and every script: the call ends in the same state except possibly LastSeenMessage
    ("noting that the sender is alive"), and makes no callback other than watch-only queries - hence no broadcast, no
-   timer call, no verification, no transaction request.  [hx] accepts a model Panic; absence of panics is NOT proved in
-   Coq - it is decided on the real code by the correspondence run (a Go panic in any history is a violation) and on the
-   model by the extracted driver (MODEL-PANIC), DESIGN.md C11.
+   timer call, no verification, no transaction request.  [hx] accepts a model Panic; that no panic can occur is the separate
+   theorem at the end of this file (Node/NoPanic.v): in the model, Panic is the outcome of every checked table access out of
+   range, write to the unallocated cache map, nil proposal dereference, division by a zero quorum or increment.
+   Go panics at sites the model does not have (none known) are decided by the correspondence run: a Go panic in any history
+   is a violation.
    Re-delivery of a stored ChangeView is not unconditionally inert: known finding D15. *)
 From Coq Require Import ZArith List.
-From DbftV Require Import P11.
+From DbftV Require Import P11 NoPanic.
 Open Scope Z_scope.
 
 Definition unchanged_but_sender_noted (s0 : nstate) (_ : unit) (s : nstate) (tr : tr_t) : Prop :=
@@ -96,3 +98,21 @@ Theorem redelivered_proposal cfg ic msg s0 ts nonce hs old :
   hx s0 (OnReceive cfg ic msg) (unchanged_but_sender_noted s0).
 Proof. exact (proposal_already_held cfg ic msg s0 ts nonce hs old). Qed.
 Print Assumptions redelivered_proposal.
+
+(* No sequence of well-formed API calls, whatever the callbacks return, makes the node panic: Start on a fresh instance,
+   then any calls (Start/Reset again, OnReceive of payloads whose validator indices are unsigned - also inside recovery
+   messages -, OnTimeout with any tag, OnTransaction with any transaction, OnNewTransaction), with ANY script of callback
+   answers.  cfg_inc <> 0: the constructor rejects a zero timestamp increment. *)
+Theorem no_sequence_of_well_formed_calls_panics cfg st ev sc :
+  cfg_inc cfg <> 0 -> Started cfg st -> wf_event ev -> step cfg st ev sc <> Panic.
+Proof. exact (fun Hi => no_panic cfg Hi st ev sc). Qed.
+Print Assumptions no_sequence_of_well_formed_calls_panics.
+
+Theorem the_first_start_does_not_panic cfg ts sc : cfg_inc cfg <> 0 -> step cfg fresh_state (EStart ts) sc <> Panic.
+Proof. exact (fun Hi => no_panic_at_start cfg Hi ts sc). Qed.
+Print Assumptions the_first_start_does_not_panic.
+
+(* every state reached that way keeps all tables sized to the validator list and all stored indices inside it *)
+Theorem started_states_are_sized cfg st : cfg_inc cfg <> 0 -> Started cfg st -> Sz st.
+Proof. exact (fun Hi => started_sized cfg Hi st). Qed.
+Print Assumptions started_states_are_sized.
